@@ -293,3 +293,34 @@ def finish(pid, tier, seed, level, total: Result, t0, replay_fns, rule, assumpti
             print("HARNESS-ERROR: " + str(h)[:3000], file=sys.stderr)
         return 2 if exit_code == 0 else exit_code
     return exit_code
+
+
+# ----------------------------------------------------------------------------------------------
+# module-level constants a user may override before deriving the functions
+# ----------------------------------------------------------------------------------------------
+def overridden(mods_fn, cache, explore_fn):
+    """wrap an explore function: if the case carries `override` = {module key: {constant: value}}, the module attributes are set, the
+    harness's cache of derived functions is dropped (so that everything is derived again from the overridden constants), the exploration
+    runs, and constants and cache are restored.  The harness's references read the same module attributes, so they follow the override."""
+    def run(case):
+        ov = case.get("override")
+        if not ov:
+            return explore_fn(case)
+        M = mods_fn()
+        saved = []
+        try:
+            for mk, kv in ov.items():
+                for k, v in kv.items():
+                    if hasattr(M[mk], k):
+                        saved.append((M[mk], k, getattr(M[mk], k)))
+                        setattr(M[mk], k, v)
+            cache.clear()
+            r = explore_fn(case)
+            for f in r.fails:
+                f["cls"] = (f.get("cls") or "-") + ";constants_overridden"
+            return r
+        finally:
+            for mod, k, v in saved:
+                setattr(mod, k, v)
+            cache.clear()
+    return run
